@@ -4,7 +4,7 @@ PROPS = {}
 PROPS["C17"] = dict(
     driver="oracle",
     props_file="Props/C17.v",
-    coq_targets=["Oracle/Check.vo", "Oracle/Proofs.vo", "Oracle/Sound.vo", "Oracle/LinkServiceOracle.vo"],
+    coq_targets=["Oracle/Check.vo", "Oracle/Proofs.vo", "Oracle/Sound.vo", "Oracle/LinkProps.vo"],
     check_module="Oracle.Check",
     check_fn="check_case_c",
     case_type="ccase",
